@@ -43,8 +43,9 @@ class VmIo:
 
     @inject(Output)
     def flush(self, output):
-        for remaining in self._unnamed:
-            output.out(remaining)
+        # Values still waiting here were collected for a printf that never
+        # got to run (the script failed or was stopped half-way through its
+        # arguments): they are not output the script asked for.
         output.flush()
         self.reset()
 
